@@ -111,6 +111,7 @@ type workerOut struct {
 	Cases      int            `json:"cases"`
 	Counters   map[string]int `json:"counters"`
 	Keys       []string       `json:"keys"`
+	Scheds     []string       `json:"scheds"`
 	Samples    []any          `json:"samples"`
 	Viols      []foundViol    `json:"viols"`
 	Ticks      int64          `json:"ticks"`
@@ -136,6 +137,7 @@ func runWorker(o *opts) {
 	}
 	out := &workerOut{Counters: map[string]int{}, LogHashes: map[int]string{}}
 	keys := map[string]bool{}
+	scheds := map[string]bool{}
 	deadline := time.Now().Add(time.Duration(o.budget * float64(time.Second)))
 	start := time.Now()
 	wantHashes := os.Getenv("VERIF_LOGHASH") == "1"
@@ -159,6 +161,9 @@ func runWorker(o *opts) {
 		for _, k := range res.Keys {
 			keys[k] = true
 		}
+		for _, k := range res.Scheds {
+			scheds[k] = true
+		}
 		if res.Sample != nil && len(out.Samples) < 2 {
 			out.Samples = append(out.Samples, res.Sample)
 		}
@@ -181,6 +186,9 @@ func runWorker(o *opts) {
 		out.Keys = append(out.Keys, k)
 	}
 	sort.Strings(out.Keys)
+	for k := range scheds {
+		out.Scheds = append(out.Scheds, k)
+	}
 	enc := json.NewEncoder(os.Stdout)
 	if err := enc.Encode(out); err != nil {
 		die("encode: %v", err)
@@ -277,6 +285,7 @@ func runCtl(o *opts) {
 	// merge
 	counters := map[string]int{}
 	keys := map[string]bool{}
+	schedSet := map[string]bool{}
 	var samples []any
 	var viols []foundViol
 	cases := 0
@@ -295,6 +304,9 @@ func runCtl(o *opts) {
 		}
 		for _, k := range w.Keys {
 			keys[k] = true
+		}
+		for _, k := range w.Scheds {
+			schedSet[k] = true
 		}
 		for _, s := range w.Samples {
 			if len(samples) < 4 {
@@ -409,8 +421,10 @@ func runCtl(o *opts) {
 		"fault_kinds_fired":   faults,
 		"probes_at_zero":      probeWarn,
 		"map_range_sites":     ctx.Sites,
-		"real_components":     ch.Real,
-		"stub_components":     ch.Stubs,
+		"distinct_schedules":  len(schedSet),
+		"distinct_schedules_rule": "distinct hashes of the complete map-iteration decision log (site, execution number, permutation) of a generator run",
+		"real_components":     orDefault(ch.Real, []string{"all yaccgo packages of the current tree (source-instrumented copy, in-process)", "uninstrumented yaccgo CLI built from the same tree (where the check uses it)"}),
+		"stub_components":     orDefault(ch.Stubs, []string{"map-iteration order shim (simrt.Order)", "tick clock", "stdout capture", "file-system effect log (pass-through to real files)"}),
 		"violation_groups":    len(order),
 		"slowest_case":        map[string]any{"index": slowIdx, "ms": slowMs},
 		"known_findings_hit":  len(knownLines),
@@ -440,6 +454,13 @@ func runCtl(o *opts) {
 		os.Exit(2)
 	}
 	os.Exit(exit)
+}
+
+func orDefault(a, d []string) []string {
+	if len(a) > 0 {
+		return a
+	}
+	return d
 }
 
 func sanitize(s string) string {
